@@ -188,7 +188,7 @@ K("C07/calc-outcome", ["C07", "C14"], BD + "c07_calc_outcome_precedence", ["Boar
 K("C11/try-from/accepts", ["C11", "C02", "C19"], BD + "c11_try_from_accepts_exactly_valid", ["<Board as TryFrom<RawBoard>>::try_from"],
   "for all raw boards: try_from is Ok iff (mark on the right rank, <= 16 men a side, exactly one king each, no pawn on rank 1/8, side not to move not in check); on Err the reported condition (with its square / colour) really holds",
   assumes=ATT, timeout=3000, mem_gb=32, mem_est=12)
-K("C11/try-from/normalised", ["C11", "C02", "C05"], BD + "c11_try_from_result_is_normalised_inv", ["<Board as TryFrom<RawBoard>>::try_from"],
+K("C11/try-from/normalised", ["C11", "C02", "C05"], "board::verif_kani_c::c11_try_from_result_normalised_wf_hashed", ["<Board as TryFrom<RawBoard>>::try_from"],
   "for all raw boards accepted: result == input except rights without king/rook at home and a mark without enemy pawn / with an occupied square behind it; derived sets well-formed at every square; stored hash == from-scratch hash",
   assumes=ATT + ["C05/scratch/zobrist-hash"], timeout=3000, mem_gb=32, mem_est=12)
 K("C11/spec/idempotent", ["C11"], BD + "c11_normalise_idempotent_and_valid", [],
